@@ -290,6 +290,11 @@ fn next_bytes<'s>(
     utf8parser: &mut Utf8Parser,
 ) -> Option<&'s [u8]> {
     let offset = bytes.iter().copied().position(|b| {
+        if *state == State::Utf8 && !is_utf8_continuation(b) {
+            // Truncated character: abandon it and treat `b` like any other byte
+            *utf8parser = Utf8Parser::default();
+            *state = State::Ground;
+        }
         if *state == State::Utf8 {
             true
         } else {
@@ -309,6 +314,11 @@ fn next_bytes<'s>(
     *bytes = next;
 
     let offset = bytes.iter().copied().position(|b| {
+        if *state == State::Utf8 && !is_utf8_continuation(b) {
+            // Truncated character: abandon it and treat `b` like any other byte
+            *utf8parser = Utf8Parser::default();
+            *state = State::Ground;
+        }
         if *state == State::Utf8 {
             if utf8parser.add(b) {
                 *state = State::Ground;
